@@ -235,3 +235,39 @@ def constructed_operations(ix, mon):
                 if isinstance(ent, ClassInfo):
                     out[nc.name] = ent
     return out
+
+
+def check_store_sites(ix, rep, mon, rule='R-EXH'):
+    """the operator an online monitor steps for a node is the operation its own `visit<NodeClass>` handler constructed: every store into
+    `self.online_operator_dict[...]` anywhere on the MRO of the interpreter class sits in the handler some node class dispatches to, is keyed by
+    that node's name and stores the constructed operation itself.  A store elsewhere (a `visit()` wrapper, a helper) replaces or wraps what the
+    handlers built -- the sibling rules that compare operations with the offline handlers never see the wrapper."""
+    d = D.dispatch_of(ix, mon.cls)
+    handlers = set()
+    for nc in D.node_classes(ix):
+        meth, _ = d.method_for(nc, ix)
+        if meth:
+            f = ix.resolve_method(mon.cls, meth)
+            if f is not None:
+                handlers.add(id(f))
+    n = 0
+    for k in ix.mro(mon.cls):
+        if not isinstance(k, ClassInfo):
+            continue
+        for mname, f in sorted(k.methods.items()):
+            if ix.resolve_method(mon.cls, mname) is not f:
+                continue
+            for st in _construct_sites(f):
+                n += 1
+                slot = '%s:store:%s' % (mon.kind, mname)
+                key = ast.unparse(st.targets[0].slice)
+                nodep = f.node.args.args[1].arg if len(f.node.args.args) > 1 else None
+                if id(f) not in handlers:
+                    rep.fail(rule, f.module.rel, f.qual, slot, '`%s` outside the node handlers: the operator table is written by %s(), which no node class dispatches to -- what it stores '
+                             'replaces or wraps the operation the handler constructed (a wrapper that answers from a kept value, say, is stepped instead of the operation the '
+                             'online/offline comparison looked at)' % (ast.unparse(st)[:70], mname), st.lineno)
+                elif key != '%s.name' % nodep:
+                    rep.fail(rule, f.module.rel, f.qual, slot, 'the handler stores its operator under `%s`, not under %s.name' % (key, nodep), st.lineno)
+                else:
+                    rep.ok(rule, f.module.rel, f.qual, slot, 'stores the constructed operation under node.name', st.lineno)
+    return n
